@@ -688,6 +688,10 @@ impl Ctx {
                     other => r = other,
                 }
             }
+            // a re-run that could not be judged (a wait ran out) confirms nothing
+            if matches!(&r, Err(v) if v.kind.starts_with("inconclusive")) {
+                r = Ok(Outcome::default());
+            }
             match r {
                 Err(v) if strict || strict_known.matching(property, sub, &v.kind).is_none() => {
                     rep.failure = Some(Failure {
